@@ -1124,6 +1124,8 @@ func (g *Gen) strToBytes(x ssa.Value, s string) {
 	nv := g.havocSV("E_uint8", "(Array Int (Array Int Int))")
 	g.assumeRaw(fmt.Sprintf("(forall ((r Int)) (! (=> (not (= r %s)) (= (select %s r) (select %s r))) :pattern ((select %s r))))", arr, nv, h, nv))
 	g.assumeRaw(fmt.Sprintf("(forall ((i Int)) (! (=> (and (<= 0 i) (< i (len %s))) (= (select (select %s %s) i) (at %s i))) :pattern ((select (select %s %s) i))))", s, nv, arr, s, nv, arr))
+	// reading the fresh array back as a string gives s again
+	g.assumeRaw(fmt.Sprintf("(= (b2s (select %s %s) 0 (len %s)) %s)", nv, arr, s, s))
 	g.define(x, fmt.Sprintf("(mkslc %s 0 (len %s) (len %s))", arr, s, s))
 }
 
